@@ -19,7 +19,12 @@ def tasks(tier):
     from props.combine_kernels import ByBoxes, ByBinfile
     from props.chef_kernels import UserPfileKnife
     out = header_tasks("C14", tier)
-    for t in (StrainWorker(3), StrainWorker(2), ByBoxes(), ByBinfile(), UserPfileKnife(True)):
+    # parent side of the same lemma: the tasks handed to the workers and the scatter of their results (skeletons)
+    from props.colander_parents import parent_tasks as colander_parents
+    from props.combine_parents import parent_tasks as combine_parents
+    from props.chef_kernels import cook_tasks, init_tasks
+    for t in [StrainWorker(3), StrainWorker(2), ByBoxes(), ByBinfile(), UserPfileKnife(True)] + colander_parents(tier) + \
+            combine_parents(tier) + cook_tasks(tier) + init_tasks(tier)[:2]:
         t.prop = "C14"
         out.append(t)
     return out
